@@ -449,7 +449,20 @@ pub fn c05_families(thorough: bool) -> Vec<(String, Vec<State>, bool)> {
                 sts.push(State { id: format!("3R|b0|fib{}{}", n, if with_centre { "+centre" } else { "" }), dim: 3, periodic: false, anchor: b.anchor, width: b.width, gens });
             }
         }
-        fams.push(("B4:Fibonacci shells on one sphere (co-spherical up to rounding) 3R|b0".to_string(), sts, true));
+        // exact rings: an axis pair (or a centre and a neighbour above) inside m co-circular generators - a circle and a
+        // point are always co-spherical
+        let rings: &[usize] = if thorough { &[5, 12, 17, 33, 40, 64, 65, 66, 68, 70, 72, 80, 100, 128] } else { &[17, 40, 66, 72] };
+        for &m in rings {
+            for kind in ["axis", "prism"] {
+                let mut fr: Vec<DVec3> = if kind == "axis" { vec![v3(0.5, 0.5, 0.3), v3(0.5, 0.5, 0.7)] } else { vec![v3(0.5, 0.5, 0.5)] };
+                fr.extend(exact_ring_fracs(m, 0.3));
+                if kind == "prism" {
+                    fr.push(v3(0.5, 0.5, 0.9));
+                }
+                sts.push(State { id: format!("3R|b0|exact-ring-{}{}", kind, m), dim: 3, periodic: false, anchor: b.anchor, width: b.width, gens: fr.iter().map(|f| b.anchor + *f * b.width).collect() });
+            }
+        }
+        fams.push(("B4:Fibonacci shells on one sphere and exact rings around an axis (co-spherical up to rounding) 3R|b0".to_string(), sts, true));
     }
     // (E) small length scales with wall contact: the lattice alphabets (generators on walls, edges, corners) in the tiny
     // box, and a ladder of scales 2^-8 .. 2^-48 for a few witness states (where does the absolute term of the filter's
